@@ -61,6 +61,10 @@ class Gen:
             return {fn: self.sample(ft, depth + 1) for fn, ft in t[2]}
         if k == "array":
             dims = [d if d is not None else (self.dim(depth) if callable(self.dim) else self.dim) for d in t[2]]
+            if depth >= 1 and self.variant == 0 and not callable(self.dim) and self.dim >= 2:
+                # nested dynamic arrays get different lengths, so sibling items/fields have different sizes
+                bump = self.n() % 2
+                dims = [d if sd is not None else d + bump for d, sd in zip(dims, t[2])]
             if len(dims) > 1 and 0 in dims:
                 # a nested list can only express an empty LAST axis ([[],[]] has shape (2,0), [] is
                 # ambiguous): other dynamic axes get length 2; if the last axis is static, no axis is empty
@@ -421,3 +425,7 @@ def to_form(t, v, form):
         m = [m for m in t[2] if tg.build(m).__name__ == name][0]
         return (name, to_form(m, data, form))
     return v
+
+
+def static_size_of(t):
+    return tg.static_size(t)
